@@ -31,13 +31,19 @@ def parsePolicy (name : String) (p : Nat) (a : Nat) : Option Policy :=
   | "mtsafe" => some Policy.mtsafe
   | "stack" => some (Policy.stack p)
   | "placement" => some (Policy.placement p)
-  | "buffer" => some (Policy.buffer (if p = 1 then 1 else if p = 4 then 4 else 8))
+  | "buffer" => some (Policy.buffer (if p = 1 || p = 3 || p = 4 || p = 12 || p = 24 then p else 8))
   | _ => none
 
 structure SeqSt where
   s : State
   fs : List Nat
   coros : List Nat := []     -- ids of frames that belong to real coroutines
+
+/-- buffer policy: the vector's `size()` in bytes after the request (the user's buffer, not the capacity) -/
+def bszTok (s : State) : String :=
+  match s.cfg.pol with
+  | .buffer i => s!" bsz={s.vsize * i}"
+  | _ => ""
 
 def exA (s : State) (sz : Nat) : String := if s.cfg.extra > 0 then s!" ex=+1-0@{sz}:ok" else ""
 def exF (s : State) (sz : Nat) : String := if s.cfg.extra > 0 then s!" ex=+0-1@{sz}:ok" else ""
@@ -72,7 +78,7 @@ def seqOp (q : SeqSt) (ws : List String) : SeqSt × String :=
       | some k, some sz =>
           match step q.s (Op.alloc k sz) with
           | (s', Res.alloc id blk) =>
-              ({ q with s := s' }, line (s!"alloc#{id} sz={sz} at={blkStr blk}" ++ exA q.s sz) q.s.heap s'.heap)
+              ({ q with s := s' }, line (s!"alloc#{id} sz={sz}{bszTok s'} at={blkStr blk}" ++ exA q.s sz) q.s.heap s'.heap)
           | (_, Res.rejected) => (q, s!"assert sz={sz}")
           | _ => (q, "skip")
       | _, _ => (q, "skip")
@@ -97,11 +103,11 @@ def seqOp (q : SeqSt) (ws : List String) : SeqSt × String :=
             | (s', Res.alloc id blk) =>
                 if thr == "coro" then
                   ({ q with s := s', coros := id :: q.coros },
-                   line (s!"coro#{id} sz={sz} at={blkStr blk} in=1" ++ exA q.s sz) q.s.heap s'.heap)
+                   line (s!"coro#{id} sz={sz}{bszTok s'} at={blkStr blk} in=1" ++ exA q.s sz) q.s.heap s'.heap)
                 else
                   let (s'', _) := step s' (Op.free id)
                   ({ q with s := s'' },
-                   line (s!"cdrop#{id} sz={sz} at={blkStr blk}" ++ exA q.s sz ++ " freed=ok" ++ exF q.s sz) q.s.heap s''.heap)
+                   line (s!"cdrop#{id} sz={sz}{bszTok s'} at={blkStr blk}" ++ exA q.s sz ++ " freed=ok" ++ exF q.s sz) q.s.heap s''.heap)
             | (_, Res.rejected) => (q, s!"assert sz={sz}")
             | _ => (q, "skip")
         | _, _ => (q, "skip")
@@ -115,7 +121,7 @@ def seqOp (q : SeqSt) (ws : List String) : SeqSt × String :=
           | (s', Res.alloc id blk) =>
               let (s'', _) := step s' (Op.free id)
               ({ q with s := s'' },
-               line (s!"cstart#{id} sz={sz} at={blkStr blk}" ++ exA q.s sz ++ " freed=ok" ++ exF q.s sz ++ " started=0") q.s.heap s''.heap)
+               line (s!"cstart#{id} sz={sz}{bszTok s'} at={blkStr blk}" ++ exA q.s sz ++ " freed=ok" ++ exF q.s sz ++ " started=0") q.s.heap s''.heap)
           | (_, Res.rejected) => (q, s!"assert sz={sz}")
           | _ => (q, "skip")
       | _, _ => (q, "skip")
